@@ -58,6 +58,8 @@ def plan(tier, seed):
 		tasks.append(('t_long', dict(part=part, nparts=4, tier=tier)))
 	for lo in range(0, 256, 64):
 		tasks.append(('t_allbytes', dict(lo=lo, hi=lo + 64)))
+	for acc in ('set', 'array'):
+		tasks.append(('t_accumulator_reuse', dict(acc=acc, depth=3 if tier == 'quick' else 4)))
 	for si in range(len(SELF_OVERLAP_SPECS)):
 		tasks.append(('t_selfoverlap', dict(si=si, L=13 if tier == 'quick' else 16)))
 	return tasks
@@ -220,6 +222,50 @@ def t_everyk(klo, khi):
 			if got.tolist() != R.ref_signature(11, b'ATGAC', [s]) or str(got.dtype) != 'uint32':
 				sh.violation('signature', dict(k=11, prefix=b'ATGAC', seqs=[s], type='bytes', acc='array'), R.ref_signature(11, b'ATGAC', [s]), got.tolist())
 	sh.sample(dict(family='everyk', k=k, prefix=p.decode(), seq=c))
+	return sh
+
+
+def t_accumulator_reuse(acc, depth, only=None):
+	"""ONE accumulator object, supplied by the caller, used for a sequence of calls (it is a mutable set: the caller may clear it, discard from
+	it, or let it accumulate): every history of up to `depth` steps over {signature of sequence i into the accumulator, clear, discard one
+	k-mer}; after each call the returned signature must be the sorted content the accumulator should have by set semantics."""
+	import numpy as np
+	from gambit.sigs.calc import calc_signature, SetAccumulator, ArrayAccumulator
+	sh = Shard()
+	k, prefix = 3, b'AT'
+	ks = _specs(k, prefix)
+	seqs = [b'ATCGATTTA', b'ATGGGATCCA', b'CCATAAAATGCA', b'GGGG', b'ATCGATTTAATGGG']        # the first three hold two k-mers each (same count, different ones)
+	sigs = [set(R.ref_signature(k, prefix, [s])) for s in seqs]
+	events = [('sig', i) for i in range(len(seqs))] + [('clear',), ('discard',), ('read',)]
+	for L in range(2, depth + 1):
+		for hist in itertools.product(range(len(events)), repeat=L):
+			if events[hist[0]][0] != 'sig' or (only is not None and list(hist) != only):
+				continue
+			a = SetAccumulator(k) if acc == 'set' else ArrayAccumulator(k)
+			model = set()
+			for step, ei in enumerate(hist):
+				ev = events[ei]
+				sh.evals += 1
+				if ev[0] == 'sig':
+					model |= sigs[ev[1]]
+					got = calc_signature(ks, [seqs[ev[1]]], accumulator=a)
+				elif ev[0] == 'clear':
+					a.clear(); model.clear()
+					continue             # no read here: what the accumulator hands out NEXT is what counts
+				elif ev[0] == 'discard':
+					if model:
+						x = min(model)
+						a.discard(x); model.discard(x)
+					continue
+				else:
+					got = a.signature()
+				if not isinstance(got, np.ndarray) or got.tolist() != sorted(model) or str(got.dtype) != R.ref_dtype(k) or len(a) != len(model):
+					sh.violation('accumulator-history', dict(k=k, prefix=prefix, acc=acc, accumulator_history=list(hist[:step + 1]), events=[list(e) for e in events]), sorted(model), getattr(got, 'tolist', lambda: repr(got))())
+					break
+			else:
+				sh.nontrivial += 1
+	sh.count('accumulator_histories', sh.evals)
+	sh.sample(dict(family='accumulator-reuse', acc=acc, depth=depth))
 	return sh
 
 
@@ -429,6 +475,8 @@ def replay(case, kind=None):
 	sh = Shard()
 	import numpy as np
 	from gambit.sigs.calc import calc_signature
+	if 'accumulator_history' in case:
+		return t_accumulator_reuse(case['acc'], len(case['accumulator_history']), only=list(case['accumulator_history'])).violations[:1]
 	if 'history' in case:
 		ki = [(3, b'AT'), (11, b'ATGAC'), (12, b'ATGAC')].index((case['k'], case['prefix']))
 		return t_histories(ki, len(case['history']), only=case['history']).violations[:1]
